@@ -109,6 +109,15 @@ class Armorable(metaclass=abc.ABCMeta):
         return Armorable.__armor_regex.search(text) is not None
 
     @staticmethod
+    def __text_before_armor(data):
+        # the text around an armored block may begin with a non-ASCII character (a UTF-8 sequence, a Latin-1 letter),
+        # whose first octet has its high bit set like that of a packet tag.  It is text if the armor header line
+        # begins a line and nothing in front of it is a control octet: packet data in front of an armor marker that is
+        # part of a literal body holds version, algorithm, length and time octets
+        head = bytes(data[:data.find(Armorable.__armor_marker.encode('ascii'))])
+        return head.endswith(b'\n') and re.search(br'[\x00-\x08\x0b\x0c\x0e-\x1f\x7f]', head) is None
+
+    @staticmethod
     def ascii_unarmor(text):
         """
         Takes an ASCII-armored PGP block and returns the decoded byte value.
@@ -120,6 +129,14 @@ class Armorable(metaclass=abc.ABCMeta):
         It can contain the following keys: ``magic``, ``headers``, ``hashes``, ``cleartext``, ``body``, ``crc``.
         """
         m = {'magic': None, 'headers': None, 'body': bytearray(), 'crc': None}
+        # a byte order mark in front of the text (as editors on Windows write it) is not part of the text
+        if isinstance(text, str) and text.startswith('\ufeff'):
+            text = text[1:]
+
+        elif (isinstance(text, (bytes, bytearray)) and text[:3] == codecs.BOM_UTF8
+                and Armorable.__armor_marker.encode('ascii') in text):
+            text = text[3:]
+
         if not Armorable.is_ascii(text):
             # not ASCII: binary packet data, unless this is armored text with non-ASCII characters in its armor
             # headers (their values are UTF-8 text, RFC 4880 6.2), in a signed cleartext or in the text around the armor
@@ -127,8 +144,8 @@ class Armorable(metaclass=abc.ABCMeta):
             if isinstance(text, str) and Armorable.__armor_marker in text:
                 pass
 
-            elif (isinstance(text, (bytes, bytearray)) and text[:1] < b'\x80'
-                    and Armorable.__armor_marker.encode('ascii') in text):
+            elif (isinstance(text, (bytes, bytearray)) and Armorable.__armor_marker.encode('ascii') in text
+                    and (text[:1] < b'\x80' or Armorable.__text_before_armor(text))):
                 try:
                     text = text.decode('utf-8')
                 except UnicodeDecodeError:
